@@ -384,7 +384,13 @@ def fold_objects(I, xs, start, inplace):
     # placeholders for every array/scalar field
     ph = {}
     saved = dict(acc.fields)
+    probe = xs.elem(i)
+    invariant = {}
     for fld, v in list(acc.fields.items()):
+        if isinstance(v, Poly) and isinstance(probe, Obj) and isinstance(probe.fields.get(fld), Poly) \
+                and T.equal(v, probe.fields[fld]) and iname not in v.syms:
+            invariant[fld] = v      # e.g. shape fields: equal in the accumulator and in every element
+            continue
         p, pname = placeholder_like(v, "acc.%s#%d" % (fld, acc.oid))
         if p is not None and not isinstance(v, bool):
             ph[fld] = (p, pname)
@@ -392,7 +398,7 @@ def fold_objects(I, xs, start, inplace):
     I.assumed.add(T.cmp_cond("<=", ZERO, i))
     I.assumed.add(T.cmp_cond("<", i, n))
     pathlen = len(I.path)
-    el = xs.elem(i)
+    el = probe
     res = I.binop(ast.Add, acc, el, inplace=inplace)
     if len(I.path) != pathlen:
         # shape test of the elements against the accumulator: evaluate it once
@@ -401,6 +407,9 @@ def fold_objects(I, xs, start, inplace):
         raise ModelError("object addition returned a non-object")
     out = res
     final = acc if inplace else Obj(start.cls, dict(saved))
+    for fld, v in invariant.items():
+        if not (isinstance(out.fields.get(fld), Poly) and T.equal(out.fields[fld], v)):
+            raise ModelError("field %s is not preserved by the object addition" % fld)
     for fld, v in out.fields.items():
         if fld in ph:
             p, pname = ph[fld]
